@@ -5,6 +5,7 @@ go 1.23.0
 require (
 	github.com/anishathalye/porcupine v1.3.0
 	github.com/matrix-org/gomatrixserverlib v0.0.0
+	gopkg.in/macaroon.v2 v2.1.0
 )
 
 require (
